@@ -1,3 +1,5 @@
 import Pxv.Model.Body
 import Pxv.Thm.C14
 import Pxv.Model.ReqData
+import Pxv.Thm.C15
+import Pxv.Model.Config
